@@ -746,3 +746,36 @@ fn c16_static_sound_covers_the_same_source_time_at_every_device_rate() {
 	kani::cover!(fast, "w:4Hz-device");
 	std::mem::forget(s1); std::mem::forget(s2);
 }
+
+// @h prop=C03,C07 tier=quick kind=main timeout=900
+// @bounds a static sound in any transport/resampler state and ANY live playback state; in ONE callback interval the handle issued stop() together with pause() and/or resume()/resume_at() (any subset, symbolic); one on_start_processing
+// @funcs StaticSound::on_start_processing, StaticSound::read_commands, StaticSound::{pause,resume,stop}, PlaybackStateManager::{pause,resume,stop}
+// @catches stop() being overridden by a pause or resume issued in the same callback interval (the sound would never reach Stopped): the twin of c03_streaming_stop_wins_over_pause_and_resume_in_the_same_interval
+// @requires kv_psm_force.rs
+#[kani::proof]
+#[kani::unwind(10)]
+fn c03_static_stop_wins_over_pause_and_resume_in_the_same_interval() {
+	let (mut sound, _w, _position, _playing, _lp, _tue, _slice, _reverse) = kv_any_sound(1.0, 0.0);
+	let (mut w, readers) = command_writers_and_readers();
+	let old = std::mem::replace(&mut sound.command_readers, readers);
+	std::mem::forget(old);
+	let sel: u8 = kani::any();
+	kani::assume(sel < 6);
+	let st = match sel { 0 => PlaybackState::Playing, 1 => PlaybackState::Pausing, 2 => PlaybackState::Paused, 3 => PlaybackState::WaitingToResume, 4 => PlaybackState::Resuming, _ => PlaybackState::Stopping };
+	sound.playback_state_manager = PlaybackStateManager::kv_forced(st, StartTime::Delayed(Duration::from_secs(100)));
+	sound.shared.set_state(st);
+	let tw = Tween { start_time: StartTime::Immediate, duration: Duration::from_millis(250), easing: crate::Easing::Linear };
+	let with_pause: bool = kani::any();
+	let with_resume: u8 = kani::any();
+	kani::assume(with_resume < 3);
+	if with_pause { w.pause.write(tw); }
+	if with_resume == 1 { w.resume.write((StartTime::Immediate, tw)); }
+	if with_resume == 2 { w.resume.write((StartTime::Delayed(Duration::from_secs(5)), tw)); }
+	w.stop.write(tw);
+	sound.on_start_processing();
+	assert!(sound.playback_state_manager.playback_state() == PlaybackState::Stopping, "a stop issued in this interval leaves the sound Stopping, whatever else was issued with it");
+	assert!(sound.shared.state() == PlaybackState::Stopping, "and the handle reports it");
+	kani::cover!(with_pause && sel == 0, "w:pause+stop while playing");
+	kani::cover!(with_resume == 1 && sel == 2, "w:resume+stop while paused");
+	std::mem::forget(sound); std::mem::forget(w);
+}
